@@ -47,6 +47,7 @@ class RealWaitTimeout(Exception):
     """Real-thread world: a wait on the budget condition never ended (reported as a deadlock)."""
 
 
+GRANT_TIMEOUT = 300.0       # gated world: a granted step of the real code (no I/O to speak of) takes microseconds
 REAL_WAIT_TIMEOUT = 900.0   # never decides anything by itself: run_real declares a deadlock only after a quiet period
 
 
@@ -107,6 +108,7 @@ class GatedEnv:
         self.deadlock = None
         self.error = None
         self.last = None             # tid granted last
+        self.extra_tids = 0
 
     # ---- thread side ---------------------------------------------------------------------------
     def me(self) -> _SThread:
@@ -240,7 +242,7 @@ class GatedEnv:
                 self.deadlock = {
                     "blocked": [[st.tid, str(st.label)] for st in live if not st.idle],
                     "idle": [st.tid for st in live if st.idle],
-                    "obs": self.observe(),
+                    "obs": self.observe(), "why": "deadlock",
                 }
                 self.events.append({"t": 0, "op": "Deadlock", "i": 0, "cmp": 0, "post": self.observe()})
                 self._abort()
@@ -260,11 +262,25 @@ class GatedEnv:
                 pick = self.threads[t]
             steps += 1
             if steps > max_steps:
+                # the bounded-step watchdog: under this scheduler a thread that waits is parked until it is
+                # notified, so an execution of a handful of tensors that is still going after `max_steps`
+                # granted steps does not terminate (livelock) - a verdict about the code, like a deadlock
+                self.deadlock = {
+                    "blocked": [[st.tid, str(st.label)] for st in live if not st.idle],
+                    "idle": [st.tid for st in live if st.idle],
+                    "obs": self.observe(), "why": "stepbound",
+                }
+                self.events.append({"t": 0, "op": "Deadlock", "i": 0, "cmp": 0, "post": self.observe()})
                 self._abort()
-                raise MachineryError("scheduler exceeded the step bound (livelock in the harness?)")
+                return
             self.last = pick.tid
             pick.sem.release()
-            self.sched_sem.acquire()
+            if not self.sched_sem.acquire(timeout=GRANT_TIMEOUT):
+                # the granted thread neither reached its next synchronisation point nor ended: it blocks on
+                # something the shims do not control.  That is a hole in the binding, not a verdict - but never a hang.
+                self.aborting = True
+                raise MachineryError(f"thread {pick.tid} ({pick.label}) did not reach a synchronisation point within "
+                                     f"{GRANT_TIMEOUT:.0f} s: it blocks on a primitive the shims do not replace")
 
     def _abort(self):
         self.aborting = True
@@ -524,6 +540,12 @@ class _GExecutor:
         if len(self.workers) < self.max_workers:
             k = len(self.workers) + 1
             tid = k if self.driver_pool else 10 * self.owner + k
+            if tid in env.threads:
+                # a pool of the same owner that was never shut down (that is what ErrJoin is about) still has a
+                # thread of this name: the new thread gets a name the specification does not know (a divergence
+                # at most - the formulas are evaluated on the observed states all the same)
+                env.extra_tids += 1
+                tid = 1000 + env.extra_tids
             st = env.spawn(tid, self._worker, ready=lambda: bool(self.queue), idle=True)
             self.workers.append(st)
         return f
@@ -608,6 +630,21 @@ class RealEnv:
         self.aborting = False
         self.error = None
         self.conditions: list = []
+        self.executors: list = []
+        self.tid_pool: dict = {}
+        self.extra_tids = 0
+
+    def drain(self, timeout: float) -> bool:
+        """Wait for pool threads still running after the public call came back (harness thread)."""
+        done = _rt.Event()
+
+        def waiter():
+            for ex in list(self.executors):
+                _rcf.ThreadPoolExecutor.shutdown(ex, wait=True)
+            done.set()
+
+        _rt.Thread(target=waiter, daemon=True, name="vf-c09-drain").start()
+        return done.wait(timeout)
 
     def abort(self):
         """After a deadlock verdict: let the threads stuck on the budget condition unwind."""
@@ -810,6 +847,7 @@ class _RExecutor(_rcf.ThreadPoolExecutor):
         self.idlock = _rt.Lock()
         self.fut: list = []
         self.stopped = False
+        env.executors.append(self)
 
     def submit(self, fn, *args, **kwargs):
         env = self.env
@@ -830,7 +868,14 @@ class _RExecutor(_rcf.ThreadPoolExecutor):
                 with self.idlock:
                     self.nthreads += 1
                     k = self.nthreads
-                env.tls.tid = k if self.driver_pool else 10 * self.owner + k
+                tid = k if self.driver_pool else 10 * self.owner + k
+                with env.log:
+                    other = env.tid_pool.get(tid)
+                    if other is not None and other is not self and not other.stopped:
+                        env.extra_tids += 1       # a pool of the same owner that was never joined still runs (see _GExecutor)
+                        tid = 1000 + env.extra_tids
+                    env.tid_pool[tid] = self
+                env.tls.tid = tid
                 env.tls.pool = self
                 env.tls.lockn = 0
             env.tls.job_base = base
